@@ -22,8 +22,13 @@
     "hash and sender survive RLP and JSON re-encoding"                    hash_sender_stable_under_reencoding, rlp_decode_canonical,
                                                                            json_roundtrip, json_accepts_sender_ok
     MakeSigner by height                                                   makeSigner_spec
+    "rejected by Homestead-and-later rules" at ApplyTransaction acceptance makeSigner_from_homestead, highS_rejected_from_homestead,
+                                                                           applySeq_history_free (the signer of a call, hence the
+                                                                           high-S verdict, depends on (config, height) only — not on
+                                                                           the calls processed before)
 -/
 import Aqv.Lemmas.TxSign
+import Aqv.Model.TxApply
 import Aqv.Props.C11
 import Aqv.Lemmas.Translated.TxSign
 namespace Aqv.Props.C12
@@ -620,6 +625,52 @@ theorem makeSigner_spec (hb eb : Option Nat) (c : Nat) (num : Option Nat) :
        | _, none => .frontier) := by
   cases eb <;> cases num <;> cases hb <;> simp [makeSigner, isForked] <;> split <;> simp_all
 
+/-! ## 8b. block processing: the signer, and so the high-S verdict, is a function of (config, height) only -/
+
+/-- From the Homestead block on `MakeSigner` never hands out the Frontier signer: it is Homestead's or the chain's EIP-155 signer,
+    whatever the EIP-155 block is (unset, below, at or above the height). -/
+theorem makeSigner_from_homestead (hb : Nat) (eb : Option Nat) (c n : Nat) (hn : hb ≤ n) :
+    makeSigner (some hb) eb c (some n) = .homestead ∨ makeSigner (some hb) eb c (some n) = .eip155 c := by
+  unfold makeSigner
+  cases isForked eb (some n)
+  · left; simp [isForked, hn]
+  · right; simp
+
+/-- the Frontier signer is only ever selected strictly below the Homestead block (or when no Homestead block is configured). -/
+theorem makeSigner_frontier_only_before_homestead (hb : Nat) (eb : Option Nat) (c n : Nat)
+    (h : makeSigner (some hb) eb c (some n) = .frontier) : n < hb := by
+  rcases Nat.lt_or_ge n hb with hlt | hge
+  · exact hlt
+  · rcases makeSigner_from_homestead hb eb c n hge with h' | h' <;> rw [h'] at h <;> cases h
+
+/-- "malleable (high-S) signatures are rejected by Homestead-and-later rules", at block-processing acceptance: for EVERY height at or
+    above the configured Homestead block — and every EIP-155 block, chain id, ECDSA instance — an unprotected transaction whose S is
+    in the upper half is refused with `ErrInvalidSig` by the signer `MakeSigner(config, height)` selects. -/
+theorem highS_rejected_from_homestead (E : Ecdsa) (H : Bytes → Bytes) (hb : Nat) (eb : Option Nat) (c n : Nat) (hn : hb ≤ n)
+    (t : Tx) (hs : t.s > secpHalfN) (hp : isProtectedV t.v = false) :
+    applySender E H ⟨⟨some hb, eb, c⟩, n, t⟩ = .error .invalidSig := by
+  have hr := homestead_rejects_high_s E H t hs
+  simp only [applySender, blockSigner]
+  rcases makeSigner_from_homestead hb eb c n hn with h | h <;> rw [h]
+  · exact hr.1
+  · exact hr.2 c hp
+
+/-- History freedom: in ANY sequence of `ApplyTransaction` calls (any configs, heights, transactions, in any order) the verdict of a
+    call is `senderOf` under `MakeSigner(its config, its height)` — the calls before (and after) it have no influence.  In particular
+    a Frontier-height call before a Homestead-height call cannot make the latter accept a high-S signature. -/
+theorem applySeq_history_free (E : Ecdsa) (H : Bytes → Bytes) (pre post : List ApplyCall) (call : ApplyCall) :
+    (applySeq E H (pre ++ call :: post))[pre.length]? =
+      some (senderOf E H (makeSigner call.cfg.homesteadBlock call.cfg.eip155Block call.cfg.chainId (some call.num)) call.tx) := by
+  simp [applySeq, applySender, blockSigner]
+
+/-- … so a high-S unprotected transaction at a Homestead height is refused after any prefix of calls. -/
+theorem highS_rejected_after_any_history (E : Ecdsa) (H : Bytes → Bytes) (pre post : List ApplyCall) (hb : Nat) (eb : Option Nat)
+    (c n : Nat) (hn : hb ≤ n) (t : Tx) (hs : t.s > secpHalfN) (hp : isProtectedV t.v = false) :
+    (applySeq E H (pre ++ ⟨⟨some hb, eb, c⟩, n, t⟩ :: post))[pre.length]? = some (.error .invalidSig) := by
+  have h := highS_rejected_from_homestead E H hb eb c n hn t hs hp
+  simp only [applySender, blockSigner] at h
+  rw [applySeq_history_free, h]
+
 /-! ## Non-vacuity -/
 
 /-- an ECDSA instance satisfying SignOK and Symmetric (recover names the key that `sign` encodes in r). -/
@@ -649,6 +700,18 @@ example : isProtectedV 45 = true := by decide
 
 /-- homestead_rejects_high_s: the hypothesis is satisfiable. -/
 example : (⟨0, 1, 21000, none, 0, [], 27, 1, secpN - 1⟩ : Tx).s > secpHalfN := by decide
+
+/-- makeSigner_from_homestead / makeSigner_frontier_only_before_homestead / highS_rejected_from_homestead / highS_rejected_after_any_history:
+    a config with HomesteadBlock 10 (EIP-155 unset, or at 20): Frontier at 9, Homestead at 10 and 5000, EIP-155 from 20; the high-S
+    unprotected transaction (hypotheses hold) IS accepted at the Frontier height 9 (so the theorems are not vacuous: the verdict does
+    change at the fork) and refused at 10 although the call at 9 came first. -/
+example : makeSigner (some 10) none 1337 (some 9) = .frontier ∧ makeSigner (some 10) none 1337 (some 10) = .homestead ∧
+    makeSigner (some 10) none 1337 (some 5000) = .homestead ∧ makeSigner (some 10) (some 20) 1337 (some 19) = .homestead ∧
+    makeSigner (some 10) (some 20) 1337 (some 20) = .eip155 1337 := by decide
+example : isProtectedV (⟨0, 1, 21000, none, 0, [], 27, 42, secpN - 1⟩ : Tx).v = false := by decide
+example : applySeq toyE2 id [⟨⟨some 10, none, 1337⟩, 9, ⟨0, 1, 21000, none, 0, [], 27, 42, secpN - 1⟩⟩,
+                             ⟨⟨some 10, none, 1337⟩, 10, ⟨0, 1, 21000, none, 0, [], 27, 42, secpN - 1⟩⟩] =
+    [.ok [42], .error .invalidSig] := by decide
 
 /-- cache_transparent: the empty cache is sound, and so is a cache filled by a previous call. -/
 example (E : Ecdsa) (H : Bytes → Bytes) (t : Tx) : CacheOK E H t none := by intro _ _ h; cases h
